@@ -9,12 +9,15 @@ import (
 	"errors"
 
 	"github.com/attestantio/go-eth2-client/api"
+	apiv1 "github.com/attestantio/go-eth2-client/api/v1"
 	"github.com/attestantio/go-eth2-client/spec/altair"
 	"github.com/attestantio/go-eth2-client/spec/phase0"
 	"github.com/attestantio/vouch/internal/vnd"
 	"github.com/attestantio/vouch/internal/vstub"
+	nullmetrics "github.com/attestantio/vouch/services/metrics/null"
 	"github.com/attestantio/vouch/services/synccommitteeaggregator"
 	"github.com/attestantio/vouch/services/synccommitteemessenger"
+	"github.com/rs/zerolog"
 	e2wtypes "github.com/wealdtech/go-eth2-wallet-types/v2"
 )
 
@@ -85,6 +88,99 @@ func (h *c15Submitter) SubmitSyncCommitteeMessages(_ context.Context, msgs []*al
 	return nil
 }
 
+// c15Spec is the chain specification New reads its constants from.
+type c15Spec struct {
+	spec map[string]any
+}
+
+func (h *c15Spec) Spec(_ context.Context, _ *api.SpecOpts) (*api.Response[map[string]any], error) {
+	return &api.Response[map[string]any]{Data: h.spec, Metadata: map[string]any{}}, nil
+}
+
+// c15Accounts and c15SubsSubmitter are the validating accounts provider and the
+// subscriptions submitter New insists on; the messenger takes its accounts
+// from the duty and never subscribes.
+type c15Accounts struct{}
+
+func (c15Accounts) ValidatingAccountsForEpoch(_ context.Context, _ phase0.Epoch) (map[phase0.ValidatorIndex]e2wtypes.Account, error) {
+	return nil, errors.New("not used")
+}
+
+func (c15Accounts) ValidatingAccountsForEpochByIndex(_ context.Context, _ phase0.Epoch, _ []phase0.ValidatorIndex) (map[phase0.ValidatorIndex]e2wtypes.Account, error) {
+	return nil, errors.New("not used")
+}
+
+func (c15Accounts) SyncCommitteeAccountsForEpoch(_ context.Context, _ phase0.Epoch) (map[phase0.ValidatorIndex]e2wtypes.Account, error) {
+	return nil, errors.New("not used")
+}
+
+func (c15Accounts) SyncCommitteeAccountsForEpochByIndex(_ context.Context, _ phase0.Epoch, _ []phase0.ValidatorIndex) (map[phase0.ValidatorIndex]e2wtypes.Account, error) {
+	return nil, errors.New("not used")
+}
+
+type c15SubsSubmitter struct{}
+
+func (c15SubsSubmitter) SubmitSyncCommitteeSubscriptions(_ context.Context, _ []*apiv1.SyncCommitteeSubscription) error {
+	return errors.New("not used")
+}
+
+// c15Env is what a harness configures the messenger with; what it leaves out
+// is filled with inert stubs and the mainnet constants.
+type c15Env struct {
+	ct                    *vstub.ChainTime
+	size, subnets, target uint64
+	agg                   *c15Agg
+	roots                 *c15Roots
+	sub                   *c15Submitter
+	signer                *c15RootSigner
+	sel                   *c15SelSigner
+}
+
+// c15New builds the messenger the way main does: through New, its constants
+// coming from the chain specification. New leaves the slot data records empty.
+func c15New(label string, e c15Env) *Service {
+	if e.ct == nil {
+		e.ct = &vstub.ChainTime{SPE: 32, SlotNs: 1 << 33}
+	}
+	if e.size == 0 {
+		e.size, e.subnets, e.target = 512, 4, 16
+	}
+	if e.agg == nil {
+		e.agg = &c15Agg{}
+	}
+	if e.roots == nil {
+		e.roots = &c15Roots{}
+	}
+	if e.sub == nil {
+		e.sub = &c15Submitter{}
+	}
+	if e.signer == nil {
+		e.signer = &c15RootSigner{}
+	}
+	if e.sel == nil {
+		e.sel = &c15SelSigner{}
+	}
+	s, err := New(context.Background(),
+		WithLogLevel(zerolog.Disabled),
+		WithMonitor(&nullmetrics.Service{}),
+		WithProcessConcurrency(2),
+		WithSpecProvider(&c15Spec{spec: map[string]any{
+			"SLOTS_PER_EPOCH": e.ct.SPE, "SYNC_COMMITTEE_SIZE": e.size, "SYNC_COMMITTEE_SUBNET_COUNT": e.subnets,
+			"TARGET_AGGREGATORS_PER_SYNC_SUBCOMMITTEE": e.target,
+		}}),
+		WithChainTimeService(e.ct),
+		WithSyncCommitteeAggregator(e.agg),
+		WithBeaconBlockRootProvider(e.roots),
+		WithSyncCommitteeMessagesSubmitter(e.sub),
+		WithSyncCommitteeSubscriptionsSubmitter(c15SubsSubmitter{}),
+		WithValidatingAccountsProvider(c15Accounts{}),
+		WithSyncCommitteeRootSigner(e.signer),
+		WithSyncCommitteeSelectionSigner(e.sel),
+	)
+	vnd.Assert(err == nil && s != nil, label)
+	return s
+}
+
 // VerifC15_Message: a message goes out for every member with an account and a
 // signature, over the head root obtained for the slot; one member's missing
 // account or signature never suppresses another's.
@@ -106,12 +202,7 @@ func c15Message(m int) {
 	case 3:
 		sub.fail = true
 	}
-	s := &Service{
-		slotsPerEpoch: ct.SPE, syncCommitteeSize: 512, syncCommitteeSubnetCount: 4, targetAggregatorsPerSyncCommittee: 16,
-		chainTimeService: ct, syncCommitteeAggregator: agg, beaconBlockRootProvider: roots,
-		syncCommitteeMessagesSubmitter: sub, syncCommitteeRootSigner: signer,
-		slotDataRecords: map[phase0.Slot]synccommitteemessenger.SlotData{},
-	}
+	s := c15New("C15.new.accepted", c15Env{ct: ct, size: 512, subnets: 4, target: 16, agg: agg, roots: roots, sub: sub, signer: signer})
 	slot := phase0.Slot(vnd.U64("slot"))
 	vnd.Assume(uint64(slot) < 1<<40)
 	indices := map[phase0.ValidatorIndex][]phase0.CommitteeIndex{}
@@ -217,7 +308,7 @@ func VerifC15_Prepare() {
 	type params struct{ size, subnets, target uint64 }
 	choices := []params{{512, 4, 16}, {32, 4, 16}, {8, 4, 1}}
 	p := choices[vnd.Choose("params", len(choices))]
-	s := &Service{syncCommitteeSize: p.size, syncCommitteeSubnetCount: p.subnets, targetAggregatorsPerSyncCommittee: p.target, syncCommitteeSelectionSigner: sel}
+	s := c15New("C15.new.accepted", c15Env{size: p.size, subnets: p.subnets, target: p.target, sel: sel})
 	slot := phase0.Slot(vnd.U64("slot"))
 	indices := map[phase0.ValidatorIndex][]phase0.CommitteeIndex{}
 	pos := make([]uint64, m)
@@ -288,7 +379,8 @@ func VerifC15_Prepare() {
 // VerifC20_SlotDataRecordsBounded: the per-slot record of what was signed stays
 // bounded under the default configuration (nobody else cleans it up).
 func VerifC20_SlotDataRecordsBounded() {
-	s := &Service{slotDataRecords: map[phase0.Slot]synccommitteemessenger.SlotData{}}
+	// the records' pre-state is filled in below
+	s := c15New("C20.new.accepted", c15Env{})
 	slot := []phase0.Slot{1000, 7654321}[vnd.Choose("slot", 2)] // concrete: 100 map keys are compared pairwise
 	for back := phase0.Slot(1); back <= maxSlotDataRecordsBeforeCleanUp+1; back++ {
 		s.slotDataRecords[slot-back] = synccommitteemessenger.SlotData{}
@@ -311,7 +403,8 @@ func VerifC20_SlotDataRecordsBounded() {
 // overlapping its lookup or clean-up (head event handler) has no unsynchronised
 // conflicting accesses.
 func VerifC17_SlotDataRecords() {
-	s := &Service{slotDataRecords: map[phase0.Slot]synccommitteemessenger.SlotData{}}
+	// the records' pre-state is filled in below
+	s := c15New("C17.new.accepted", c15Env{})
 	for i := phase0.Slot(0); i < 3; i++ {
 		s.slotDataRecords[100+i] = synccommitteemessenger.SlotData{}
 	}
